@@ -183,7 +183,11 @@ func c29RealNode(r *engine.Run, outcomes *engine.Counter) (int, int) {
 		"alice+bob":       {visor.NewAddrsFilter([]cipher.Address{idA.Addr, idB.Addr})},
 		"alice-confirmed": {visor.NewAddrsFilter([]cipher.Address{idA.Addr}), visor.NewConfirmedTxFilter(true)},
 		"unconfirmed":     {visor.NewConfirmedTxFilter(false)},
-		"nobody":          {visor.NewAddrsFilter([]cipher.Address{unknownAddr})},
+		// pending transactions with several outputs to the queried addresses (payment + change): listed once each
+		"alice-unconfirmed":             {visor.NewAddrsFilter([]cipher.Address{idA.Addr}), visor.NewConfirmedTxFilter(false)},
+		"alice+bob-unconfirmed":         {visor.NewAddrsFilter([]cipher.Address{idA.Addr, idB.Addr}), visor.NewConfirmedTxFilter(false)},
+		"genesis+alice+bob-unconfirmed": {visor.NewAddrsFilter([]cipher.Address{idG.Addr, idA.Addr, idB.Addr}), visor.NewConfirmedTxFilter(false)},
+		"nobody":                        {visor.NewAddrsFilter([]cipher.Address{unknownAddr})},
 	}
 	evals, nt := 0, 0
 	hashes := func(ts []visor.Transaction) []string {
@@ -202,6 +206,14 @@ func c29RealNode(r *engine.Run, outcomes *engine.Counter) (int, int) {
 			}
 			full := hashes(all)
 			L := uint64(len(full))
+			seenH := map[string]bool{}
+			for _, h := range full {
+				if seenH[h] {
+					r.Failf("Visor.GetTransactions:unpaged-list-has-duplicates", pageCase{fname, oname, 0, 0}, "filter %s order %s: the unpaged result lists transaction %s more than once: %v", fname, oname, h, full)
+					break
+				}
+				seenH[h] = true
+			}
 			for _, size := range []uint64{1, 2, 3, 4, 7, 10, 100} {
 				N := L / size
 				if L%size != 0 {
